@@ -91,6 +91,10 @@ func vScenarioCases(t *testing.T, withDecode bool) {
 					out.printf("dec %s outs=%s consumed=%s maxask=%d alloc=%d", c.id, strings.Join(outs, "|"), strings.Join(consumed, ","), maxAsk, m1.TotalAlloc-m0.TotalAlloc)
 				})
 			}
+		case "cc":
+			vGuard(out, c.kind, c.id, func() { out.printf("cc %s %s", c.id, vRunCC(c)) })
+		case "e2en":
+			vGuard(out, c.kind, c.id, func() { out.printf("e2en %s %s", c.id, vRunE2ENotify(c)) })
 		case "e2ec":
 			vGuard(out, c.kind, c.id, func() { out.printf("e2ec %s %s", c.id, vRunE2ECancel(c)) })
 		case "scn", "enc":
